@@ -256,6 +256,29 @@ def _axis_iz(cfg, seg, pcs):
     return out
 
 
+def _contacts_active(cfg, seg, pcs, vm):
+    """every cell whose closure contains a point where the path changes cell (corner / edge contacts: a sample that sits
+    exactly there belongs to a cell the path only touches) is mapped to a source"""
+    L, u = _unit(seg)
+    sh, st = cfg['shape'], cfg['steps']
+    for t0, t1, c in pcs[1:]:
+        p = [seg[a] + u[a] * t0 for a in range(3)]
+        for sx in (-1, 1):
+            for sy in (-1, 1):
+                for sz in (-1, 1):
+                    if cfg['geo'] == 'cart':
+                        q = [p[0] + sx * 1e-7 * st[0], p[1] + sy * 1e-7 * st[1], p[2] + sz * 1e-7 * st[2]]
+                        cc = cart_cell(cfg, q)
+                    else:
+                        r = math.hypot(p[0], p[1]) + sx * 1e-7 * st[0]
+                        ph = math.atan2(p[1], p[0]) + sy * 1e-9
+                        q = [max(r, 0.0) * math.cos(ph), max(r, 0.0) * math.sin(ph), p[2] + sz * 1e-7 * st[2]]
+                        cc = cyl_cell(cfg, q)
+                    if all(0 <= cc[a] < sh[a] for a in range(3)) and int(vm[cc]) < 0:
+                        return False
+    return True
+
+
 def vmap_of(cfg):
     return np.asarray(material(cfg).voxel_map)
 
@@ -331,7 +354,8 @@ def check_oracle(ctx, cfg, step, ms, seg, spec0, entries, desc, L=None, pcs=None
         ctx.fail('C10:%s:total-vs-active-chord' % cfg['geo'],
                  'sum of entries %r, chord in active cells %r (%d active runs), dt %r' % (tot, active_chord, active_runs, dt), desc)
         ok = False
-    if all(int(vm[c]) >= 0 for _, _, c in pcs) and not (on_axis and (vm[0, :, :] < 0).any()):
+    if all(int(vm[c]) >= 0 for _, _, c in pcs) and not (on_axis and (vm[0, :, :] < 0).any()) \
+            and _contacts_active(cfg, seg, pcs, vm):
         if abs(tot - L) > 1e-9 * L + slack:
             ctx.fail('C10:%s:total-vs-length' % cfg['geo'], 'all traversed cells active: sum of entries %r != path length %r' % (tot, L), desc)
             ok = False
